@@ -148,7 +148,7 @@ pub fn run(tier: Tier) -> i32 {
         // pawn sets without children and drop the other 3-man sets from the quick tier
         plan.families.retain(|(f, _)| !f.name().starts_with("all placements of") || f.name().contains('P'));
         for (f, cd) in plan.families.iter_mut() {
-            if f.name().starts_with("all placements of") {
+            if f.name().starts_with("all placements of") || f.name().starts_with("castling family (1") {
                 *cd = 0;
             }
         }
